@@ -181,7 +181,10 @@ check('C07',
       'multiplication and division (i*i = -1); astropy two_product (Veltkamp split + Dekker) is error-free without underflow; Phase * number is within 2^-52 of '
       'the exact product for |product| <= 2^52 - 2; Phase / number (quotient, exact residual, correction quotient) within 2^-52 for |quotient| <= 2^47 and '
       'divisors in [2^-100, 2^100]; abs(Phase) within 2^-52; the mul / div / abs branches of the model reduce to exactly these functions. '
-      'PARTIAL: |frac| <= 1/2 exactly at ties, floor-division / remainder / divmod, ranges outside those hypotheses, '
+      'The floor_divide / remainder / divmod branch is modelled statement by statement (numpy npy_divmod with exact fmod, correction Phase, '
+      'two passes; compared bit for bit on every run) and whatever quotient q it returns, the remainder it returns is the phase minus q*divisor '
+      'within 2^-51, normalised (C07_divmod_identity). PARTIAL: |frac| <= 1/2 exactly at ties, that this quotient is the floor '
+      '(0 <= remainder < divisor), ranges outside those hypotheses, '
       'trig-on-fraction and "never decays to a single double" for each operand kind are decided by '
       'the correspondence run (every case evaluated by vm_compute on the model and compared BIT FOR BIT with the implementation) and by the '
       'exact-rational monitor (|result - exact| <= 2^-52, normalised, type Phase) on every run.',
